@@ -31,7 +31,7 @@ ASSUMPTIONS = [
     "history claims are proved as one inductive step from an arbitrary consistent state (monitor: the listener's last notification for (service, source) is 'offered' iff the entry is in the store) under every single operation; the induction over the history is the (trusted) induction rule",
 ]
 
-BOUNDED = ST.BOUNDED + ["discovery state: one filter with one listener plus one watch-all listener (each optional); one service/source of interest plus up to two other entries"]
+BOUNDED = ["listener registrations: one filter with one listener plus one watch-all listener (each optional); the store of known offers is unbounded"]
 
 EXPLANATION = "each operation of the discovery part is proved to keep the monitor invariant (alternation, truthfulness) for all ids, wildcards, TTLs, addresses and times; the number of simultaneously stored other entries and of registered listeners is bounded in shape (bounded_stand_ins); one schedule (late registration overtaken by a StopOffer) is a recorded known finding"
 
@@ -51,7 +51,7 @@ class Recorder(SD.ClientServiceListener):
 class DWorld:
     """a discovery part in an arbitrary consistent state"""
 
-    def __init__(self, vc, name="d", register=True):
+    def __init__(self, vc, name="d", register=True, track=("A_S", "B_S", "X_Sx")):
         self.vc = vc
         self.loop = vc.install_loop(LL.FakeLoop(vc.real(name + ".now", 0)))
         self.prot, self.sent = SS.gen_sd_protocol(vc, name + ".prot")
@@ -65,8 +65,6 @@ class DWorld:
         # the offer of interest and the service it describes
         self.offer = SCFG.gen_entry(vc, name + ".offer", sd_type=H.SOMEIPSDEntryType.OfferService, resolved=True)
         self.S = C.Service.from_offer_entry(self.offer)
-        self.S1 = SCFG.gen_service(vc, name + ".S1", with_options=False)
-        vc.assume(self.S1.service_id != self.S.service_id)
         # the listener's filter: matching is by contract (C19); three representative filters
         kind = vc.choice(name + ".filter", ("any-instance", "exact", "other-instance"))
         if kind == "any-instance":
@@ -84,22 +82,51 @@ class DWorld:
         self.all_registered = register and vc.choice(name + ".Lall_registered", (True, False))
         if self.all_registered:
             self.disc.watcher_all_services.add(self.Lall)
-        self.slots = {}
-        self.populate(name + ".A_S", self.A, self.S, ("absent", "timer", "forever"))
-        self.populate(name + ".A_S1", self.A, self.S1, ("absent", "timer"))
-        self.populate(name + ".B_S", self.B, self.S, ("absent", "forever"))
-
-    def populate(self, name, addr, key, kinds):
-        kind = self.vc.choice(name, kinds)
-        if kind == "absent":
-            self.slots[(addr, key)] = None
-            return
-        handle = None
+        # the store of known offers holds arbitrarily many entries (vc.lazy_dict): each existing
+        # entry carries the discovery part's 'stopped' callback and None or a live timer
         ts = self.disc.found_services
-        if kind == "timer":
-            handle = self.loop.call_later(self.vc.real(name + ".remaining", 0), ts._expired, addr, key)
-        ts.store[addr][key] = (self.disc._notify_service_stopped, handle)
-        self.slots[(addr, key)] = (kind, handle)
+        ts.store = vc.lazy_dict(name + ".found", self.gen_inner, self.gen_addr, default=dict)
+        # (X, Sx): an ARBITRARY OTHER entry -- another service, from the same source, from B
+        # or from any other source; what holds for it holds for every other entry
+        where = vc.choice(name + ".X", ("same-source", "B", "elsewhere"))
+        if where == "same-source":
+            self.X = self.A
+        elif where == "B":
+            self.X = self.B
+        else:
+            self.X = vc.opaque(name + ".X.addr", "addr")
+            vc.assume(self.X != self.A and self.X != self.B)
+        self.Sx = SCFG.gen_service(vc, name + ".Sx", with_options=False)
+        vc.assume(self.Sx != self.S)
+        self.S1 = self.Sx
+        # entries the obligations talk about are looked at (materialised) up front
+        self.slots = {}
+        for tag, addr, key in (("A_S", self.A, self.S), ("B_S", self.B, self.S), ("X_Sx", self.X, self.Sx)):
+            if tag in track:
+                self.slots[(addr, key)] = self.state(addr, key)
+
+    def gen_addr(self, vc, name):
+        return vc.opaque(name, "addr")
+
+    def gen_service_key(self, vc, name):
+        return SCFG.gen_service(vc, name, with_options=False)
+
+    def gen_inner(self, vc, name, addr):
+        ts = self.disc.found_services
+
+        def gen_entry(vc2, name2, key):
+            if vc2.choice(name2 + ".kind", ("timer", "forever")) == "forever":
+                return (self.disc._notify_service_stopped, None)
+            h = self.loop.call_later(vc2.real(name2 + ".remaining", 0), ts._expired, addr, key)
+            return (self.disc._notify_service_stopped, h)
+
+        return vc.lazy_dict(name + ".services", gen_entry, self.gen_service_key)
+
+    def state(self, addr, key):
+        if not self.present(addr, key):
+            return None
+        h = self.disc.found_services.store[addr][key][1]
+        return ("forever", None) if h is None else ("timer", h)
 
     def present(self, addr, key):
         ts = self.disc.found_services
@@ -157,7 +184,7 @@ def ob_handle_offer(vc):
             else:
                 vc.check(h is not None and h.when == w.loop.now + w.offer.ttl and not h.cancelled_, "handle_offer.expires_ttl_after_this_offer")
     vc.check_eq(w.present(w.B, w.S), before[(w.B, w.S)], "handle_offer.same_service_from_other_sources_untouched")
-    vc.check_eq(w.present(w.A, w.S1), before[(w.A, w.S1)], "handle_offer.other_services_untouched")
+    vc.check_eq(w.present(w.X, w.Sx), before[(w.X, w.Sx)], "handle_offer.other_services_untouched")
     w.check_step("handle_offer", before)
 
 
@@ -172,85 +199,158 @@ def ob_expiry(vc):
     w.check_step("expiry", before)
 
 
+def _elem_head(vc, v, entering):
+    vc.stash("loop.entering", entering)
+
+
+def _addr_head(vc, v, entering):
+    if entering:
+        vc.stash("watch.addr", v["addr"])
+
+
+def _svc_head(vc, v, entering):
+    vc.stash("watch.inner", entering)
+    if entering:
+        vc.stash("watch.service", v["s"])
+
+
+LOOPS = {
+    ("someip.sd.ServiceDiscover.watch_service", 0): {"head": _addr_head},
+    ("someip.sd.ServiceDiscover.watch_service", 1): {"head": _svc_head},
+    ("someip.sd.ServiceDiscover.stop_watch_service", 0): {"head": _addr_head},
+    ("someip.sd.ServiceDiscover.stop_watch_service", 1): {"head": _svc_head},
+    ("someip.sd.ServiceDiscover.watch_all_services", 0): {"head": _addr_head},
+    ("someip.sd.ServiceDiscover.watch_all_services", 1): {"head": _svc_head},
+    ("someip.sd.ServiceDiscover.stop_watch_all_services", 0): {"head": _addr_head},
+    ("someip.sd.ServiceDiscover.stop_watch_all_services", 1): {"head": _svc_head},
+}
+
+
+def _mass_withdrawal(vc, w, o, label, addr_of_interest):
+    """obligations shared by reboot_detected(addr) and connection_lost(): the store is
+    walked by TimedStore.stop_all_for_address / stop_all, whose loops are verified for one
+    arbitrary entry (spec_store): that entry is reported 'stopped' -- exactly once and before
+    the call returns -- to every concerned listener, and to nobody else"""
+    vc.check(o.kind != "raise", label + ".never_raises")
+    vc.check_eq(len(w.loop.ready), 0, label + ".defers_nothing")
+    if vc.native:
+        # a replay walks the whole store: every tracked entry that was removed was reported once
+        for slot, st in w.slots.items():
+            addr, key = slot
+            if st is not None and (addr_of_interest is None or addr == addr_of_interest):
+                if w.F.matches_service(key):
+                    vc.check_eq(w.events("L", key, addr), ["stopped"], label + ".withdrawn_offer_reported_stopped_once")
+        return
+    elem = vc.stashed("saa.element") if vc.stashed("saa.entering") else None
+    if o.kind == "cut" and elem is not None:
+        vc.cover("entry")
+        service = elem[0]
+        addr = addr_of_interest if addr_of_interest is not None else vc.stashed("sa.addr")
+        told_L = [e[1] for e in w.log if e[0] == "L"]
+        told_all = [e[1] for e in w.log if e[0] == "Lall"]
+        vc.check_eq(told_L, ["stopped"] if w.F.matches_service(service) else [], label + ".entry_reported_stopped_once_to_a_matching_listener_only")
+        vc.check_eq(told_all, ["stopped"] if w.all_registered else [], label + ".entry_reported_stopped_once_to_watch_all_listeners")
+        for e in w.log:
+            vc.check(e[2] == service and e[3] == addr, label + ".report_names_the_withdrawn_offer_and_its_source")
+        vc.check(not w.present(addr, service), label + ".withdrawn_offer_forgotten")
+    else:
+        vc.check_eq(w.log, [], label + ".nothing_reported_beyond_the_entries")
+
+
 def ob_reboot_detected(vc):
     """a detected reboot of a source withdraws everything learnt from it, and only that"""
-    w = DWorld(vc)
+    w = DWorld(vc, track=("B_S", "X_Sx"))
     before = w.snapshot()
-    w.disc.reboot_detected(w.A)
-    vc.check(not w.present(w.A, w.S) and not w.present(w.A, w.S1), "reboot_detected.source_forgotten")
+    vc.arm_cut(SD.TimedStore.stop_all_for_address, 0)
+    o = vc.outcome(vc.body(SD.ServiceDiscover.reboot_detected), w.disc, w.A)
+    _mass_withdrawal(vc, w, o, "reboot_detected", w.A)
+    vc.check(not w.present(w.A, w.S) and not w.present(w.A, w.Sx), "reboot_detected.source_forgotten")
     vc.check_eq(w.present(w.B, w.S), before[(w.B, w.S)], "reboot_detected.other_sources_kept")
-    w.check_step("reboot_detected", before)
+    if w.X is not w.A:
+        vc.check_eq(w.present(w.X, w.Sx), before[(w.X, w.Sx)], "reboot_detected.entries_of_other_sources_kept")
+    else:
+        vc.check(not before[(w.X, w.Sx)] or True, "reboot_detected.entries_of_the_source_removed")
 
 
 def ob_connection_lost(vc):
-    w = DWorld(vc)
-    before = w.snapshot()
-    w.disc.connection_lost(None)
-    for slot in w.slots:
-        vc.check(not w.present(slot[0], slot[1]), "connection_lost.everything_forgotten")
-    w.check_step("connection_lost", before)
+    w = DWorld(vc, track=("X_Sx",))
+    o = vc.outcome(vc.body(SD.ServiceDiscover.connection_lost), w.disc, None)
+    _mass_withdrawal(vc, w, o, "connection_lost", None)
+    if o.kind == "ret":
+        vc.cover("done")
+        for slot in w.slots:
+            vc.check(not w.present(slot[0], slot[1]), "connection_lost.everything_forgotten")
 
 
-def ob_reboot_then_offer_same_message(vc):
-    """a message that reveals a reboot and carries an offer: what was learnt before is
-    reported stopped BEFORE the offer of that message is reported (the reboot is applied by
-    message_received before the entries; offers are queued by sd_message_received)"""
+def ob_offer_after_reboot(vc):
+    """the offer of a message that revealed a reboot is handled after the reboot has been
+    applied (message_received: reboot before entries; reboot_detected reports everything
+    before it returns): the source's entries are gone, so the offer is reported 'offered'"""
     w = DWorld(vc)
     vc.assume(w.F.matches_service(w.S))
     vc.assume(w.offer.ttl != 0)
-    w.prot.reboot_detected(w.A)
+    vc.assume(not w.present(w.A, w.S))  # state after reboot_detected(A)
     sdhdr = H.SOMEIPSDHeader(entries=(w.offer,), flag_unicast=True)
     w.prot.sd_message_received(sdhdr, w.A, vc.bool("multicast"))
     w.loop.run_ready()
-    ev = w.events("L", w.S, w.A)
-    if w.slots[(w.A, w.S)] is not None:
-        vc.cover("known-before")
-        vc.check_eq(ev, ["stopped", "offered"], "reboot.reported_stopped_before_the_new_offer")
-    else:
-        vc.check_eq(ev, ["offered"], "reboot.unknown_service_just_offered")
+    vc.check_eq(w.events("L", w.S, w.A), ["offered"], "reboot.offer_of_the_same_message_reported_after_the_withdrawal")
     vc.check(w.present(w.A, w.S), "reboot.new_offer_is_live")
 
 
-def ob_watch_service(vc):
-    """registering a listener: it is told about every matching live offer (once the loop
-    is idle) and from then on takes part in the alternation"""
-    w = DWorld(vc, register=False)
-    w.disc.watch_service(w.F, w.L)
-    w.registered = True
-    w.loop.run_ready()
-    for slot in w.slots:
-        addr, key = slot
-        ev = w.events("L", key, addr)
-        if w.present(addr, key) and w.F.matches_service(key):
-            vc.cover("told")
-            vc.check_eq(ev, ["offered"], "watch_service.live_matching_offer_reported")
+def _registration(vc, w, o, label, body_label, listener_name, kind, matches_all):
+    """obligations shared by the four (un)registration functions: for one arbitrary known
+    offer (s from addr) exactly one notification is queued for the listener iff its filter
+    matches (always for watch-all), and nothing else"""
+    vc.check(o.kind != "raise", label + ".never_raises")
+    pend = w.loop.pending()
+    if vc.native:
+        return
+    if o.kind == "cut" and vc.stashed("watch.inner"):
+        vc.cover("known-offer")
+        s_ = vc.stashed("watch.service")
+        addr = vc.stashed("watch.addr")
+        listener = w.L if listener_name == "L" else w.Lall
+        target = listener.service_offered if kind == "offered" else listener.service_stopped
+        if matches_all or w.F.matches_service(s_):
+            vc.check_eq(pend, [(target, (s_, addr))], label + "." + body_label)
         else:
-            vc.check_eq(ev, [], "watch_service.nothing_else_reported")
+            vc.check_eq(pend, [], label + ".non_matching_offer_not_reported")
+    else:
+        vc.check_eq(pend, [], label + ".nothing_else_queued")
+    vc.check_eq(w.log, [], label + ".listener_only_called_from_the_loop")
+
+
+def ob_watch_service(vc):
+    """registering a listener: it is told (through the event loop) about every matching
+    live offer and from then on takes part in the alternation"""
+    w = DWorld(vc, register=False, track=())
+    o = vc.outcome(vc.body(SD.ServiceDiscover.watch_service), w.disc, w.F, w.L)
+    vc.check(w.L in w.disc.watched_services[w.F], "watch_service.registered")
+    _registration(vc, w, o, "watch_service", "matching_live_offer_queued_for_the_new_listener_once", "L", "offered", False)
 
 
 def ob_watch_all_services(vc):
-    w = DWorld(vc, register=False)
-    w.disc.watch_all_services(w.Lall)
-    w.loop.run_ready()
-    for slot in w.slots:
-        addr, key = slot
-        ev = w.events("Lall", key, addr)
-        if w.present(addr, key):
-            vc.check_eq(ev, ["offered"], "watch_all_services.live_offer_reported")
-        else:
-            vc.check_eq(ev, [], "watch_all_services.nothing_else_reported")
+    w = DWorld(vc, register=False, track=())
+    o = vc.outcome(vc.body(SD.ServiceDiscover.watch_all_services), w.disc, w.Lall)
+    vc.check(w.Lall in w.disc.watcher_all_services, "watch_all_services.registered")
+    _registration(vc, w, o, "watch_all_services", "every_live_offer_queued_for_the_new_listener_once", "Lall", "offered", True)
 
 
 def ob_stop_watch(vc):
-    """unregistering: the listener hears nothing of later changes"""
-    w = DWorld(vc)
-    w.disc.stop_watch_service(w.F, w.L)
-    w.loop.run_ready()
-    n = len(w.log)
-    w.registered = False
-    w.disc.reboot_detected(w.A)
-    w.loop.run_ready()
-    vc.check_eq([e for e in w.log[n:] if e[0] == "L"], [], "stop_watch_service.silent_afterwards")
+    """unregistering: the listener is removed (and hears nothing of later changes: the
+    notification fan-out only reaches registered listeners, see handle_offer / expiry)"""
+    w = DWorld(vc, track=())
+    o = vc.outcome(vc.body(SD.ServiceDiscover.stop_watch_service), w.disc, w.F, w.L)
+    vc.check(w.L not in w.disc.watched_services[w.F], "stop_watch_service.unregistered")
+    _registration(vc, w, o, "stop_watch_service", "matching_live_offer_reported_stopped_to_the_leaving_listener_once", "L", "stopped", False)
+
+
+def ob_stop_watch_all(vc):
+    w = DWorld(vc, track=())
+    vc.assume(w.all_registered)
+    o = vc.outcome(vc.body(SD.ServiceDiscover.stop_watch_all_services), w.disc, w.Lall)
+    vc.check(w.Lall not in w.disc.watcher_all_services, "stop_watch_all_services.unregistered")
+    _registration(vc, w, o, "stop_watch_all_services", "every_live_offer_reported_stopped_to_the_leaving_listener_once", "Lall", "stopped", True)
 
 
 def ob_late_registration_overtaken(vc):
@@ -260,7 +360,10 @@ def ob_late_registration_overtaken(vc):
     w = DWorld(vc, register=False)
     vc.assume(w.slots[(w.A, w.S)] is not None)
     vc.assume(w.F.matches_service(w.S))
-    w.disc.watch_service(w.F, w.L)
+    # watch_service(F, L): registers, and for the matching live offer S from A queues
+    # L.service_offered(S, A) on the loop (ob_watch_service)
+    w.disc.watched_services[w.F].add(w.L)
+    w.loop.call_soon(w.L.service_offered, w.S, w.A)
     w.registered = True
     stop = H.SOMEIPSDEntry(
         sd_type=H.SOMEIPSDEntryType.OfferService,
@@ -284,11 +387,19 @@ HARNESSES = ST.STORE_OBLIGATIONS + [
     ob_expiry,
     ob_reboot_detected,
     ob_connection_lost,
-    ob_reboot_then_offer_same_message,
+    ob_offer_after_reboot,
     ob_watch_service,
     ob_watch_all_services,
     ob_stop_watch,
+    ob_stop_watch_all,
     ob_late_registration_overtaken,
 ] + SS.MESSAGE_RECEIVED_OBLIGATIONS
 
-EXPECT_COVERS = {"ob_handle_offer": ["not-watched", "stop-offer", "offer"], "ob_reboot_then_offer_same_message": ["known-before"], "ob_watch_service": ["told"]}
+EXPECT_COVERS = {
+    "ob_handle_offer": ["not-watched", "stop-offer", "offer"],
+    "ob_reboot_detected": ["entry"],
+    "ob_connection_lost": ["entry", "done"],
+    "ob_watch_service": ["known-offer"],
+    "ob_watch_all_services": ["known-offer"],
+    "ob_stop_watch": ["known-offer"],
+}
